@@ -1,7 +1,7 @@
 SPECIFICATION Spec
 CONSTANTS
-  SORTED = "none"
+  SORTED = "names"
   ATTRS = {1, 2, 3}
   MAXSTYLES = 3
-INVARIANT OrderIndependent
+INVARIANT OrderIndependentWhenDistinct
 CHECK_DEADLOCK FALSE
